@@ -43,7 +43,8 @@ def make_alignment(mode, gx, gy, feature):
     from cogent3.core.annotation_db import BasicAnnotationDb
 
     db = BasicAnnotationDb()
-    db.add_feature(seqid="x", biotype=feature["bio"], name=feature["name"], spans=spans, strand=feature["strand"])
+    given = [tuple(sp) for sp in feature.get("given", feature["spans"])]  # the spans in the order the spec hands them over
+    db.add_feature(seqid="x", biotype=feature["bio"], name=feature["name"], spans=given, strand=feature["strand"])
     db.add_feature(seqid=None, biotype="region", name="r", spans=spans, strand=feature["strand"], on_alignment=True)
     aln.annotation_db = db
     return aln, None
